@@ -16,12 +16,16 @@ for p in sorted(glob.glob(os.path.join(V, "seeded", "*", "meta.json"))):
         first = "harness error"
     if det.startswith("NOT caught"):
         first = "missed"
+    if "ends as a HARNESS-ERROR on this seed" in det:
+        first = "harness error"
     stats[first] += 1
     now = "caught"
     if "in progress" in det or "see detection/" in det and "VIOLATION" not in det or "see DESIGN seed table for the final status" in det:
         now = "being strengthened"
     if det.startswith("NOT caught"):
         now = "NOT caught (outside the bound)"
+    if "ends as a HARNESS-ERROR on this seed" in det:
+        now = "caught by " + "/".join(m.get("also_checked_by", []))
     if now != "caught":
         notnow.append("%s: %s" % (sid, now))
     summ = m["summary"].replace("|", "\\|").replace("\n", " ")
